@@ -102,7 +102,12 @@ impl Runner for SubprocessRunner {
         // constraint max execution time?
         let started = Instant::now();
         let mut comm = process.communicate_start(Some(input.as_bytes().to_vec()));
-        if let Some(timeout) = testcase.config.timeout {
+        // a limit that is beyond what the clock can express is no limit
+        let limit = testcase
+            .config
+            .timeout
+            .filter(|timeout| started.checked_add(*timeout).is_some());
+        if let Some(timeout) = limit {
             comm = comm.limit_time(timeout);
             debug!(
                 "waiting for output (max {})",
@@ -118,7 +123,7 @@ impl Runner for SubprocessRunner {
             Ok((stdout, stderr)) => {
                 // the output streams are closed, but the process may still be running:
                 // the time limit holds for it all the same
-                let exit_status = match testcase.config.timeout {
+                let exit_status = match limit {
                     Some(timeout) => process
                         .wait_timeout(timeout.saturating_sub(started.elapsed()))
                         .context("capture process exit")?,
